@@ -967,6 +967,26 @@ impl Watch {
         evs
     }
 
+    /// set_pingresp_recv_timeout: configuration only. It returns no events, so it can neither
+    /// arm nor cancel anything: a response timer armed by an earlier PINGREQ stays armed (and is
+    /// still cancelled by PINGRESP / close), the new value applies from the next PINGREQ on.
+    pub fn set_pingresp(&mut self, ms: u64) {
+        if self.failed() {
+            return;
+        }
+        if let Some(c) = self.calls.as_mut() {
+            c.push(WCall::SetPingresp(ms));
+        }
+        let what = format!("set_pingresp_recv_timeout({ms})");
+        let st_before = self.m.st;
+        if self.guarded(&what, &[], |ep| ep.set_pingresp_recv_timeout(ms)).is_none() {
+            return;
+        }
+        self.opts.pingresp_to_ms = ms;
+        self.stats.hit(if self.m.armed[Tk::PingrespRecv.ix()] { "c15_pingresp_timeout_changed_while_armed" } else { "c15_pingresp_timeout_changed" });
+        self.common(&[], Ctx { st_before: Some(st_before), local: true, what, ..Default::default() });
+    }
+
     /// Crash: drop the object, keep only the durable export, build a fresh object of the
     /// same kind and options and restore it.
     pub fn crash_restore(&mut self, mangle: ExportMangle) {
